@@ -1,6 +1,6 @@
 (** * C08 — answers do not depend on scan order, thread schedule or process run.
     Statements only. *)
-From PLS Require Import Check.C08 Model.History Proofs.Basics Proofs.History Proofs.Order.
+From PLS Require Import Check.C08 Check.C07 Model.History Proofs.Basics Proofs.History Proofs.Order Proofs.Agree Proofs.Cycles Proofs.SortUnique Proofs.ViewOrder.
 From Coq Require Import Permutation.
 
 (** analysing the same files (one version each) in two different orders yields, for
@@ -28,6 +28,27 @@ Theorem C08_resolution_order_independent_partial :
     closest_with dk roots s1 flt F n = closest_with dk roots s2 flt F n.
 Proof. intros dk roots s1 s2 n Hb. exact (closest_with_same_blocks dk roots s1 s2 n Hb). Qed.
 Print Assumptions C08_resolution_order_independent_partial.
+
+(** under the same exclusions, for every name, the per-file view (completion, inlay hints)
+    of two such indexes is the same list: it is sorted by name, has one entry per name, and
+    each entry is what resolution selects *)
+Theorem C08_view_order_independent_partial :
+  forall dk roots s1 s2 f dir,
+    conftests_known dk s1 (f :: dir) -> conftests_known dk s2 (f :: dir) ->
+    (forall n, order_insensitive dk roots s1 s2 (f :: dir) n) ->
+    available_cold dk roots s1 (f :: dir) = available_cold dk roots s2 (f :: dir).
+Proof. exact available_same_blocks. Qed.
+Print Assumptions C08_view_order_independent_partial.
+
+(** and the cycle reports of two indexes holding the same definitions in different
+    registration orders, resolving dependencies alike, are the same list *)
+Theorem C08_cycle_reports_order_independent :
+  forall dk roots s1 s2,
+    keys_unique s1 -> Permutation (defs s1) (defs s2) ->
+    (forall d n, dep_target dk roots s1 d n = dep_target dk roots s2 d n) ->
+    cycles_cold dk roots s1 = cycles_cold dk roots s2.
+Proof. exact cycles_registration_order_independent. Qed.
+Print Assumptions C08_cycle_reports_order_independent.
 
 (** the full-strength statement is refuted by the import-provenance witness of C01
     (same files, two orders, different answers): *)
